@@ -1159,6 +1159,11 @@ func (self *Value) SetMany(pathes []PathNode, opts *Options, root *Value, addres
 			if self.t == proto.LIST || self.t == proto.MAP {
 				self.size += 1
 			}
+		} else if self.t == proto.MAP {
+			// the value of a present key goes with its pair, whose length has to follow the value's
+			if err = self.Node.setMapValue(&ps.a[i].Node, &ps.b[i].Node); err != nil {
+				goto ret
+			}
 		}
 	}
 
